@@ -797,7 +797,7 @@ func hasKey(m map[string]any, k string) bool { _, ok := m[k]; return ok }
 // ---- single-rule violations (and a few benign variations) ----
 type c04Mut struct {
 	name string
-	ok   bool // the mutated document still conforms
+	ok   bool                                                   // the mutated document still conforms
 	f    func(r *Rng, doc map[string]any, locs []c04Loc) string // returns the position mutated, "" when not applicable
 	pred func(l *c04Loc) bool
 	at   func(r *Rng, l *c04Loc)
@@ -947,7 +947,9 @@ func init() {
 	})
 	simple("parameter-content-two-entries", false, func(l *c04Loc) bool {
 		return !l.isRef && (l.kind == "Parameter" || l.kind == "Header") && hasKey(l.obj, "content")
-	}, func(r *Rng, l *c04Loc) { l.obj["content"].(map[string]any)["text/plain"] = jobj("schema", jobj("type", "string")) })
+	}, func(r *Rng, l *c04Loc) {
+		l.obj["content"].(map[string]any)["text/plain"] = jobj("schema", jobj("type", "string"))
+	})
 	simple("header-with-name", false, ofKind("Header"), set("name", "X-Named"))
 	simple("header-with-in", false, ofKind("Header"), set("in", "header"))
 	// examples
@@ -1011,7 +1013,9 @@ func init() {
 		l.obj["format"] = Pick(r, []string{"made-up", "phone", "int32", "float"})
 	})
 	simple("schema-unknown-number-format", false, func(l *c04Loc) bool { return typed("integer")(l) || typed("number")(l) },
-		func(r *Rng, l *c04Loc) { l.obj["format"] = Pick(r, []string{"made-up", "int32", "double", "byte", "int64", "float"}) })
+		func(r *Rng, l *c04Loc) {
+			l.obj["format"] = Pick(r, []string{"made-up", "int32", "double", "byte", "int64", "float"})
+		})
 	// formats registered by the application (the harness registers one name in each of the three registries)
 	simple("schema-registered-format", true, func(l *c04Loc) bool { return typed("integer")(l) || typed("number")(l) || typed("string")(l) }, func(r *Rng, l *c04Loc) {
 		l.obj["format"] = map[string]string{"integer": "x-int", "number": "x-num", "string": "x-str"}[fmt.Sprint(l.obj["type"])]
@@ -1073,7 +1077,10 @@ func init() {
 	simple("link-both", false, ofKind("Link"), set("operationId", "getPet", "operationRef", "#/paths/~1pets/get"))
 	simple("scheme-bad-type", false, ofKind("SecurityScheme"), func(r *Rng, l *c04Loc) { l.obj["type"] = Pick(r, []string{"basic", "", "OAuth2"}) })
 	simple("scheme-http-bad-scheme", false, func(l *c04Loc) bool { return !l.isRef && l.kind == "SecurityScheme" && l.obj["type"] == "http" },
-		func(r *Rng, l *c04Loc) { l.obj["scheme"] = Pick(r, []string{"", "Bearer", "hoba"}); delete(l.obj, "bearerFormat") })
+		func(r *Rng, l *c04Loc) {
+			l.obj["scheme"] = Pick(r, []string{"", "Bearer", "hoba"})
+			delete(l.obj, "bearerFormat")
+		})
 	simple("scheme-apikey-bad-in", false, func(l *c04Loc) bool { return !l.isRef && l.kind == "SecurityScheme" && l.obj["type"] == "apiKey" },
 		func(r *Rng, l *c04Loc) { l.obj["in"] = Pick(r, []string{"", "path", "body"}) })
 	simple("scheme-apikey-no-name", false, func(l *c04Loc) bool { return !l.isRef && l.kind == "SecurityScheme" && l.obj["type"] == "apiKey" }, del("name"))
@@ -1097,7 +1104,9 @@ func init() {
 				}
 			}
 		})
-	simple("scheme-oidc-no-url", false, func(l *c04Loc) bool { return !l.isRef && l.kind == "SecurityScheme" && l.obj["type"] == "openIdConnect" }, del("openIdConnectUrl"))
+	simple("scheme-oidc-no-url", false, func(l *c04Loc) bool {
+		return !l.isRef && l.kind == "SecurityScheme" && l.obj["type"] == "openIdConnect"
+	}, del("openIdConnectUrl"))
 	simple("flow-no-scopes", false, ofKind("OAuthFlow"), del("scopes"))
 	simple("flow-urls", false, ofKind("OAuthFlow"), func(r *Rng, l *c04Loc) {
 		// drop or add a URL: whether that is legal depends on the flow
@@ -1201,7 +1210,10 @@ func c04StripRefs(r *Rng, c *C04Case) {
 		return
 	}
 	locs := c04Locs(doc)
-	l := c04Pick(r, locs, func(l *c04Loc) bool { _, ok := c04RefTargets[l.kind]; return ok && l.parent != nil && !strings.HasPrefix(l.path, ".components."+map[string]string{"Schema": "schemas", "Response": "responses", "RequestBody": "requestBodies", "Header": "headers", "Example": "examples"}[l.kind]+".*") || (ok && l.parent != nil && r.Chance(30)) })
+	l := c04Pick(r, locs, func(l *c04Loc) bool {
+		_, ok := c04RefTargets[l.kind]
+		return ok && l.parent != nil && !strings.HasPrefix(l.path, ".components."+map[string]string{"Schema": "schemas", "Response": "responses", "RequestBody": "requestBodies", "Header": "headers", "Example": "examples"}[l.kind]+".*") || (ok && l.parent != nil && r.Chance(30))
+	})
 	if l == nil {
 		return
 	}
